@@ -106,8 +106,9 @@ type botSim struct {
 	accepted     int
 	srvGot       []spkt
 	srvReadErr   error
-	delimStamp   map[int]int64 // bundle -> stamp when the closing delimiter write started
-	early        string        // quiescence assertion failure
+	delimBundle  []int   // bundles whose closing delimiter write has started ...
+	delimAt      []int64 // ... and the event stamp at that moment
+	early        string  // quiescence assertion failure
 	corrupt      string
 	configGot    []int32
 	sendErr      error
@@ -142,7 +143,7 @@ func (b *botSim) bundleDispatched(bundle int) int {
 var s2cIDs = []int32{1, 2, 3, 7, 40, int32(packetid.ClientboundPacketIDGuard) - 1}
 
 func drawBot(tp *tape.Tape, idx int, threshold int, names map[string]bool) *botSim {
-	b := &botSim{idx: idx, failAt: -1, quiesce: map[int]bool{}, delimStamp: map[int]int64{}}
+	b := &botSim{idx: idx, failAt: -1, quiesce: map[int]bool{}}
 	for attempt := 0; ; attempt++ {
 		if attempt > 8 {
 			b.name = fmt.Sprintf("bot_%d", idx)
@@ -310,8 +311,7 @@ func (g *gamePlay) AcceptPlayer(name string, id uuid.UUID, _ *user.PublicKey, _ 
 		g.c.Fail("gate.identity", "server", "unknown-name", "AcceptPlayer called with name %q which no bot uses", name)
 		return
 	}
-	b.accName, b.accID, b.accProto = name, id, protocol
-	b.accepted++
+	b.setAccepted(name, id, protocol)
 	cl := &plClient{}
 	g.pl.ClientJoin(cl, server.PlayerSample{Name: name, ID: id})
 	defer g.pl.ClientLeft(cl)
@@ -319,15 +319,15 @@ func (g *gamePlay) AcceptPlayer(name string, id uuid.UUID, _ *user.PublicKey, _ 
 	for {
 		var p pk.Packet
 		if err := conn.ReadPacket(&p); err != nil {
-			b.srvReadErr = fmt.Errorf("waiting for the configuration acknowledgement: %w", err)
+			b.setSrvReadErr(fmt.Errorf("waiting for the configuration acknowledgement: %w", err))
 			return
 		}
-		b.configGot = append(b.configGot, p.ID)
+		nCfg := b.addConfigGot(p.ID)
 		if packetid.ServerboundPacketID(p.ID) == packetid.ServerboundConfigFinishConfiguration {
 			break
 		}
-		if len(b.configGot) > 8 {
-			b.srvReadErr = errors.New("no configuration acknowledgement among the first packets")
+		if nCfg > 8 {
+			b.setSrvReadErr(errors.New("no configuration acknowledgement among the first packets"))
 			return
 		}
 	}
@@ -338,17 +338,17 @@ func (g *gamePlay) AcceptPlayer(name string, id uuid.UUID, _ *user.PublicKey, _ 
 		for range b.c2s {
 			var p pk.Packet
 			if err := conn.ReadPacket(&p); err != nil {
-				b.srvReadErr = err
+				b.setSrvReadErr(err)
 				return
 			}
-			b.srvGot = append(b.srvGot, spkt{p.ID, append([]byte(nil), p.Data...), -1})
+			b.addSrvGot(p)
 		}
 	})
 	delim := pk.Packet{ID: int32(packetid.BundleDelimiter)}
 	cur := -1
 	write := func(p pk.Packet) bool {
 		if err := conn.WritePacket(p); err != nil {
-			b.sendErr = err
+			b.setSendErr(err)
 			return false
 		}
 		return true
@@ -364,10 +364,10 @@ func (g *gamePlay) AcceptPlayer(name string, id uuid.UUID, _ *user.PublicKey, _ 
 			before := b.logLen()
 			g.w.WaitIdle("harness.bundle.quiescence")
 			if n := b.bundleEarly(cur); n > 0 {
-				b.early = fmt.Sprintf("%d handler invocations for packets of bundle %d happened before its closing delimiter was sent (log length %d -> %d)", n, cur, before, b.logLen())
+				b.setEarly(fmt.Sprintf("%d handler invocations for packets of bundle %d happened before its closing delimiter was sent (log length %d -> %d)", n, cur, before, b.logLen()))
 			}
 		}
-		b.delimStamp[cur] = g.w.Seq()
+		b.setDelimStamp(cur, g.w.Seq())
 		cur = -1
 		return write(delim)
 	}
@@ -456,15 +456,123 @@ type dialer struct {
 	b      *botSim
 	cfgAB  simnet.LinkCfg
 	cfgBA  simnet.LinkCfg
-	byConn map[*mcnet.Conn]*botSim
+	byConn *connTable
 }
 
+// connTable maps server-side conns to bots (no Go map: written and read by
+// different tasks, and runtime map access is race-instrumented).
+type connTable struct {
+	conns []*mcnet.Conn
+	bots  []*botSim
+}
+
+//go:norace
+func (t *connTable) add(c *mcnet.Conn, b *botSim) {
+	t.conns = append(t.conns, c)
+	t.bots = append(t.bots, b)
+}
+
+//go:norace
+func (t *connTable) find(c *mcnet.Conn) *botSim {
+	for i := range t.conns {
+		if t.conns[i] == c {
+			return t.bots[i]
+		}
+	}
+	return nil
+}
+
+//go:norace
+func (b *botSim) setAccepted(name string, id uuid.UUID, proto int32) {
+	b.accName, b.accID, b.accProto = name, id, proto
+	b.accepted++
+}
+
+//go:norace
+func (b *botSim) setSrvReadErr(err error) { b.srvReadErr = err }
+
+//go:norace
+func (b *botSim) addConfigGot(id int32) int {
+	b.configGot = append(b.configGot, id)
+	return len(b.configGot)
+}
+
+//go:norace
+func (b *botSim) addSrvGot(p pk.Packet) {
+	d := make([]byte, len(p.Data))
+	for i := range d {
+		d[i] = p.Data[i]
+	}
+	b.srvGot = append(b.srvGot, spkt{p.ID, d, -1})
+}
+
+//go:norace
+func (b *botSim) setSendErr(err error) {
+	if b.sendErr == nil {
+		b.sendErr = err
+	}
+}
+
+//go:norace
+func (b *botSim) setEarly(s string) { b.early = s }
+
+//go:norace
+func (b *botSim) setCorrupt(s string) { b.corrupt = s }
+
+//go:norace
+func (b *botSim) setDelimStamp(bundle int, stamp int64) {
+	b.delimBundle = append(b.delimBundle, bundle)
+	b.delimAt = append(b.delimAt, stamp)
+}
+
+//go:norace
+func (b *botSim) delimStampOf(bundle int) (int64, bool) {
+	for i := len(b.delimBundle) - 1; i >= 0; i-- {
+		if b.delimBundle[i] == bundle {
+			return b.delimAt[i], true
+		}
+	}
+	return 0, false
+}
+
+//go:norace
+func (b *botSim) setLink(l *simnet.Link) { b.link = l }
+
+//go:norace
+func (b *botSim) getLink() *simnet.Link { return b.link }
+
+//go:norace
+func (b *botSim) setJoinErr(err error) { b.joinErr = err }
+
+//go:norace
+func (b *botSim) setJoined(name string, id uuid.UUID) {
+	b.joined = true
+	b.cliName, b.cliUUID = name, id
+}
+
+//go:norace
+func (b *botSim) setGame(err error) { b.gameErr, b.gameReturned = err, true }
+
+type statusState struct {
+	json []byte
+	err  error
+	done bool
+	link *simnet.Link
+}
+
+//go:norace
+func (s *statusState) setLink(l *simnet.Link) { s.link = l }
+
+//go:norace
+func (s *statusState) set(j []byte, err error) { s.json, s.err, s.done = j, err, true }
+
 func (d *dialer) DialMCContext(ctx context.Context, addr string) (*mcnet.Conn, error) {
-	d.b.link = simnet.Pipe(d.w, fmt.Sprintf("bot%d", d.b.idx), d.cfgAB, d.cfgBA)
-	sc := mcnet.WrapConn(d.b.link.B)
-	d.byConn[sc] = d.b
+	link := simnet.Pipe(d.w, fmt.Sprintf("bot%d", d.b.idx), d.cfgAB, d.cfgBA)
+	d.b.setLink(link)
+	sc := mcnet.WrapConn(link.B)
+	d.byConn.add(sc, d.b)
 	d.w.Go(fmt.Sprintf("server%d", d.b.idx), func() { d.srv.AcceptConn(sc) })
-	return mcnet.WrapConn(d.b.link.A), nil
+	return mcnet.WrapConn(link.A), nil
 }
 
 // ---------------------------------------------------------------- scenario
@@ -557,10 +665,7 @@ func scenarioWorld(c *harness.Ctx) {
 	}
 
 	var (
-		statusJSON   []byte
-		statusErr    error
-		statusDone   bool
-		statusLink   *simnet.Link
+		status       = &statusState{}
 		statusOnline [2]int
 		pl           *server.PlayerList
 		pingInfo     *server.PingInfo
@@ -573,13 +678,13 @@ func scenarioWorld(c *harness.Ctx) {
 		for _, b := range bots {
 			gp.bots[b.name] = b
 		}
-		byConn := map[*mcnet.Conn]*botSim{}
+		byConn := &connTable{}
 		srv := &server.Server{
 			ListPingHandler: pingHandler{pingInfo, pl},
 			LoginHandler: &server.MojangLoginHandler{OnlineMode: false, Threshold: threshold,
 				LoginChecker: refuser{refuseNames}},
 			ConfigHandler: configStub{bots: func(conn *mcnet.Conn) int {
-				if b := byConn[conn]; b != nil {
+				if b := byConn.find(conn); b != nil {
 					return b.configExt
 				}
 				return 0
@@ -590,8 +695,9 @@ func scenarioWorld(c *harness.Ctx) {
 		joinedWG.Add(nBots)
 		doStatus := func() {
 			pStatus.Hit()
-			statusLink = simnet.Pipe(w, "status", statusCfg[0], statusCfg[1])
-			sc := mcnet.WrapConn(statusLink.B)
+			sl := simnet.Pipe(w, "status", statusCfg[0], statusCfg[1])
+			status.setLink(sl)
+			sc := mcnet.WrapConn(sl.B)
 			w.Go("server-status", func() { srv.AcceptConn(sc) })
 			ctx := context.Background()
 			if withDeadline {
@@ -600,10 +706,8 @@ func scenarioWorld(c *harness.Ctx) {
 				ctx, cancel = context.WithTimeout(ctx, 10*time.Minute)
 				defer cancel()
 			}
-			statusOnline[0] = pl.Len()
-			statusJSON, _, statusErr = bot.VerifPingAndList(ctx, "sim.example:25565", mcnet.WrapConn(statusLink.A))
-			statusOnline[1] = pl.Len()
-			statusDone = true
+			j, _, perr := bot.VerifPingAndList(ctx, "sim.example:25565", mcnet.WrapConn(sl.A))
+			status.set(j, perr)
 		}
 		if statusMode != 0 {
 			w.Go("pinger", func() {
@@ -637,7 +741,7 @@ func scenarioWorld(c *harness.Ctx) {
 							before := sum(p.Data)
 							w.Yield("harness.handler")
 							if sum(p.Data) != before {
-								b.corrupt = fmt.Sprintf("payload of packet id=%d changed while handler %d was running (buffer returned to the pool too early?)", p.ID, hi)
+								b.setCorrupt(fmt.Sprintf("payload of packet id=%d changed while handler %d was running (buffer returned to the pool too early?)", p.ID, hi))
 							}
 						}
 						if n == b.failAt {
@@ -678,15 +782,15 @@ func scenarioWorld(c *harness.Ctx) {
 					qw = queue.NewChannelQueue[pk.Packet](len(b.c2s) + 8)
 				}
 				d := &dialer{w: w, srv: srv, b: b, cfgAB: cfgs[i][0], cfgBA: cfgs[i][1], byConn: byConn}
-				b.joinErr = client.JoinServerWithOptions(b.addr, bot.JoinOptions{MCDialer: d, QueueRead: qr, QueueWrite: qw})
-				if b.joinErr != nil {
-					if b.link != nil {
-						b.link.A.Close()
+				jerr := client.JoinServerWithOptions(b.addr, bot.JoinOptions{MCDialer: d, QueueRead: qr, QueueWrite: qw})
+				b.setJoinErr(jerr)
+				if jerr != nil {
+					if l := b.getLink(); l != nil {
+						l.A.Close()
 					}
 					return
 				}
-				b.joined = true
-				b.cliName, b.cliUUID = client.Name, client.UUID
+				b.setJoined(client.Name, client.UUID)
 				signal()
 				var swg simsync.WaitGroup
 				swg.Add(1)
@@ -697,13 +801,12 @@ func scenarioWorld(c *harness.Ctx) {
 							w.Yield("harness.sender")
 						}
 						if err := client.Conn.WritePacket(pk.Packet{ID: s.id, Data: s.data}); err != nil {
-							b.sendErr = fmt.Errorf("bot WritePacket: %w", err)
+							b.setSendErr(fmt.Errorf("bot WritePacket: %w", err))
 							return
 						}
 					}
 				})
-				b.gameErr = client.HandleGame()
-				b.gameReturned = true
+				b.setGame(client.HandleGame())
 				swg.Wait()
 				client.Close()
 			})
@@ -818,7 +921,7 @@ func scenarioWorld(c *harness.Ctx) {
 			}
 			if e.bundle >= 0 {
 				pBundle.Hit()
-				if st, ok := b.delimStamp[e.bundle]; !ok || got.stamp < st {
+				if st, ok := b.delimStampOf(e.bundle); !ok || got.stamp < st {
 					c.Fail("gate.bundle", "dispatch", "before-closing-delimiter", "%s: packet %d of bundle %d was dispatched (event %d) before the closing delimiter was sent (event %d)", tag, e.pkt, e.bundle, got.stamp, st)
 					return
 				}
@@ -844,15 +947,15 @@ func scenarioWorld(c *harness.Ctx) {
 		}
 	}
 	if statusMode != 0 {
-		if !statusDone {
+		if !status.done {
 			c.Fail("gate.status", "ping", "hang", "the status ping did not return")
 			return
 		}
-		if statusErr != nil {
-			c.Fail("gate.status", "ping", "error", "PingAndList failed: %v", statusErr)
+		if status.err != nil {
+			c.Fail("gate.status", "ping", "error", "PingAndList failed: %v", status.err)
 			return
 		}
-		checkStatus(c, statusJSON, pingInfo, pl, bots, maxPlayers, statusOnline, statusLink)
+		checkStatus(c, status.json, pingInfo, pl, bots, maxPlayers, statusOnline, status.link)
 	}
 }
 
